@@ -610,6 +610,104 @@ fn text_case(st: &mut (Option<Impl>, ReplHighlighter), acc: &mut Acc, text: &str
     }
 }
 
+const ABANDON_PREAMBLE: &str = "(define k #f) (define (deep n) (if (= n 0) 0 (+ 1 (deep (- n 1)))))";
+const ABANDON_PROGRAMS: &[&str] = &[
+    "(+ 100 (call/cc (lambda (c) (set! k c) 1)))",
+    "(list 1 (call/cc (lambda (c) (set! k c) 2)) (deep 5))",
+    "(begin (set! k (call/cc (lambda (c) c))) (deep 20))",
+    "(let loop ((i 0)) (if (< i 50) (loop (+ i 1)) (call/cc (lambda (c) (set! k c) i))))",
+    "(eval '(+ 1 (call/cc (lambda (c) (set! k c) 1))))",
+    "(map (lambda (x) (call/cc (lambda (c) (set! k c) x))) '(1 2 3))",
+    "(deep 30)",
+    "(car (deep 10))",
+];
+const ABANDON_BUDGETS: &[usize] = &[1, 2, 3, 7];
+const ABANDON_SLICES: usize = 40;
+const ABANDON_LATER: &[&str] = &[
+    "(+ 1 2)",
+    "(if (procedure? k) (k 5) 'no-k)",
+    "(let ((x (list 1 2))) (car x))",
+    "(if (procedure? k) (+ 1 (k 6)) 'no-k)",
+    "(deep 10)",
+];
+
+/// One history: a fresh VM, the program prepared and resumed n times with budget b, then left unfinished (unless it
+/// completed); optionally a second evaluation prepared, resumed once and left too; then later forms through eval_text,
+/// the program itself once more, and the probe. Oracle: no call panics, every answer renders, the probe gives 3.
+fn abandon_case(acc: &mut Acc, i: u64) {
+    let mut j = i as usize;
+    let second = j % 2 == 1;
+    j /= 2;
+    let n = j % ABANDON_SLICES + 1;
+    j /= ABANDON_SLICES;
+    let b = ABANDON_BUDGETS[j % ABANDON_BUDGETS.len()];
+    j /= ABANDON_BUDGETS.len();
+    let program = ABANDON_PROGRAMS[j];
+    let describe = format!("{} | run_count({}) x {}{} | then {:?}, the program again, (+ 1 2)", program, b, n, if second { " | (deep 10) prepared, run_count(3), left" } else { "" }, ABANDON_LATER);
+    beat(&describe);
+    acc.evals += 1;
+    let mut problems: Vec<(String, String)> = vec![];
+    let mut im = Impl::new();
+    let _ = im.eval_text(ABANDON_PREAMBLE);
+    let cell = parse::parse_text(program).unwrap().0;
+    let other = parse::parse_text("(deep 10)").unwrap().0;
+    {
+        let vm = &mut im.vm;
+        let r = std::panic::catch_unwind(std::panic::AssertUnwindSafe(|| {
+            if vm.prepare_eval(&cell).is_ok() {
+                for _ in 0..n {
+                    match vm.run_count(b) {
+                        Ok(None) => continue,
+                        Ok(Some(c)) => {
+                            let _ = format!("{:#}", c);
+                            break;
+                        }
+                        Err(e) => {
+                            let _ = format!("{}", e);
+                            break;
+                        }
+                    }
+                }
+            }
+            if second && vm.prepare_eval(&other).is_ok() {
+                let _ = vm.run_count(3).map(|c| c.map(|c| format!("{:#}", c).len())).map_err(|e| format!("{}", e).len());
+            }
+        }));
+        if let Err(e) = r {
+            problems.push(("prepare_eval+run_count".into(), panic_message(&e)));
+        }
+    }
+    if problems.is_empty() {
+        for t in ABANDON_LATER.iter().chain([program, "(+ 1 2)"].iter()) {
+            match im.eval_text(t) {
+                ImplOut::Panic(m) => {
+                    problems.push((format!("eval_text {}", t), m));
+                    break;
+                }
+                o => {
+                    let _ = o.show();
+                    if *t == "(+ 1 2)" && o.show() != "3" {
+                        problems.push(("vm-unusable-afterwards".into(), o.show()));
+                        break;
+                    }
+                }
+            }
+        }
+    }
+    if problems.is_empty() {
+        acc.nontrivial += 1;
+        acc.outcome("abandoned-evaluation-total");
+    }
+    for (entry, msg) in problems {
+        acc.violation(Violation {
+            key: format!("abandon:{}|b={}|n={}|second={}@{}", program, b, n, second, entry),
+            class: Some("abandoned-sliced-evaluation".into()),
+            observed: "panic".into(),
+            detail: json!({"history": describe, "entry_point": entry, "panic": msg}),
+        });
+    }
+}
+
 pub fn run(ctx: &Ctx) -> i32 {
     start_watchdog("C06", 120);
     let mut rep = Report::new("exploration");
@@ -670,6 +768,10 @@ pub fn run(ctx: &Ctx) -> i32 {
         acc_zero,
     );
     let a_text = Acc::merge(a_text, a_mal);
+    // (e) abandoned sliced evaluations: a host may prepare a new evaluation while an older one is unfinished
+    let n_ab = (ABANDON_PROGRAMS.len() * ABANDON_BUDGETS.len() * ABANDON_SLICES * 2) as u64;
+    let a_ab = par_fold(n_ab, 16, || (), |_, acc, i| abandon_case(acc, i), Acc::merge, acc_zero);
+    let a_text = Acc::merge(a_text, a_ab);
     // (b) builtins x arity x palette, isolated
     let cases = builtin_cases(ctx.tier);
     let nb = cases.len();
@@ -817,7 +919,7 @@ pub fn run(ctx: &Ctx) -> i32 {
     }
     rep.exhaustive = !truncated;
     rep.rule = format!(
-        "(a) every concatenation of <= {} lexemes over {:?} ({} texts), plus {} literal-family texts (character / string-escape / radix prefixes x 27 hex payloads around the surrogate range, U+10FFFF, 2^32 and 2^64 x 6 terminators; 16 character names; 8 numeric prefixes x 9 mantissas x 12 exponents up to e5000; ratios of 9 x 13 parts at the 32- and 64-bit limits with every sign placement, as literals under 5 prefixes and through string->number; each bare, in a list, in a dotted pair and inside a string), plus {} malformed programs ({} well-formed seed forms covering every special form, each with one sub-datum at a time replaced by each of {} junk data or removed; at top level, in a procedure body, in a defined procedure and next to an internal definition), through lex::scan, parse::parse_text, Vm::eval_text (datum by datum), prepare_eval + run_count(3) (with one more run_count after the value or the failure, which must be answered, not panic), and ReplHighlighter::highlight / highlight_check at every cursor; (b) every global procedure of Vm::global_symbols() (so a new builtin is picked up automatically) at every arity 0..{} with arguments from a {}-value boundary palette (thorough: arity 3 from every second palette value) (empty / one-element / shared / improper containers; 0, -1, i32 and i64 extremes +-1, 2^64, 2^200, rationals at the 32-bit limits, +-0.0, +-inf, NaN, 1e308; #\\nul, non-ASCII characters and strings; procedures, a continuation, the unspecified value, procedures and continuations smuggled into data, nesting 60, a 1000-element list) and at arities up to {} from one value per kind = {} calls, in isolated workers (address-space cap, watchdog); allocation sizes above 10^6 are excluded as the property states; (c) {} cyclic structures x {} uses (list? length equal? display write, and as the value of an evaluation); (d) 42 programs whose macro expansion never finishes (self-, mutually and exponentially recursive transformers in six positions): an error or continued expansion is accepted, an abort or panic is not. Oracle: outcome is a value or an error, the same call as the middle operand of (list 'left-operand <call> 'right-operand) leaves its neighbours in place, the error (and value) can be rendered as text, and the same VM then evaluates (+ 1 2) to 3. Non-trivial = a case that satisfied the oracle.",
+        "(a) every concatenation of <= {} lexemes over {:?} ({} texts), plus {} literal-family texts (character / string-escape / radix prefixes x 27 hex payloads around the surrogate range, U+10FFFF, 2^32 and 2^64 x 6 terminators; 16 character names; 8 numeric prefixes x 9 mantissas x 12 exponents up to e5000; ratios of 9 x 13 parts at the 32- and 64-bit limits with every sign placement, as literals under 5 prefixes and through string->number; each bare, in a list, in a dotted pair and inside a string), plus {} malformed programs ({} well-formed seed forms covering every special form, each with one sub-datum at a time replaced by each of {} junk data or removed; at top level, in a procedure body, in a defined procedure and next to an internal definition), through lex::scan, parse::parse_text, Vm::eval_text (datum by datum), prepare_eval + run_count(3) (with one more run_count after the value or the failure, which must be answered, not panic), and ReplHighlighter::highlight / highlight_check at every cursor; (b) every global procedure of Vm::global_symbols() (so a new builtin is picked up automatically) at every arity 0..{} with arguments from a {}-value boundary palette (thorough: arity 3 from every second palette value) (empty / one-element / shared / improper containers; 0, -1, i32 and i64 extremes +-1, 2^64, 2^200, rationals at the 32-bit limits, +-0.0, +-inf, NaN, 1e308; #\\nul, non-ASCII characters and strings; procedures, a continuation, the unspecified value, procedures and continuations smuggled into data, nesting 60, a 1000-element list) and at arities up to {} from one value per kind = {} calls, in isolated workers (address-space cap, watchdog); allocation sizes above 10^6 are excluded as the property states; (c) {} cyclic structures x {} uses (list? length equal? display write, and as the value of an evaluation); (d) 42 programs whose macro expansion never finishes (self-, mutually and exponentially recursive transformers in six positions): an error or continued expansion is accepted, an abort or panic is not; (e) abandoned sliced evaluations: 8 programs (six store a continuation in a global) prepared and resumed n = 1..40 times with budget 1, 2, 3 or 7 and then left unfinished, optionally a second evaluation prepared, resumed once and left too, then five later forms through eval_text (two invoke the stored continuation), the program again and the probe = 2560 histories, a fresh VM each. Oracle: outcome is a value or an error, the same call as the middle operand of (list 'left-operand <call> 'right-operand) leaves its neighbours in place, the error (and value) can be rendered as text, and the same VM then evaluates (+ 1 2) to 3. Non-trivial = a case that satisfied the oracle.",
         nlex, LEXEMES, n_texts, lits.len(), mal.len(), SEEDS.len(), JUNK.len(), ctx.tier.pick(2, 3), BOUNDARY.len(), ctx.tier.pick(3, 5), nb, CYCLIC.len(), CYCLIC_USES.len()
     );
     rep.extra("builtin_calls", json!(nb));
